@@ -143,7 +143,7 @@ def check(ctx):
     corpus.append({"main.oal": 'use "lib/types.oal" as t;\nuse "lib/paths.oal";\nlet item = num;\nlet wrap item = { \'v item, \'id t.item };\nres /items on get -> <wrap str>;\nres /boxed on get -> <{ \'b boxed, \'i t.item }>;\n',
                    "lib/types.oal": "let item = str;\n", "lib/paths.oal": 'use "types.oal" as ty;\nuse "../top.oal" as up;\nlet boxed = { \'x ty.item, \'y up.z };\n',
                    "top.oal": "let z = int;\n"})
-    n = 40 if ctx.thorough else 10
+    n = 120 if ctx.thorough else 10
     wss = corpus + [lspws.gen_workspace(ctx.rng) for _ in range(n)]
     for i, files in enumerate(wss):
         check_workspace(ctx, files, str(i))
